@@ -81,6 +81,7 @@ type monC10 struct {
 	beginn, ende int
 	expFert      []expEvent
 	expTill      []expEvent
+	zeroDepthTill, tillAfterZeroDepth int
 	expIrr       []expEvent
 	expSow       []expEvent
 	expHarv      []expEvent
@@ -155,6 +156,15 @@ func (m *monC10) build(sc *Scenario) {
 	for i := range ts {
 		if i > 0 && ts[i] == ts[i-1] {
 			m.sameDayPairs++
+		}
+		if te[i].Depth == 0 {
+			// a row with working depth 0: nothing to carry out and nothing logged, but it takes its place in the schedule
+			// (same-day shifting) and the rows after it must still be carried out
+			m.zeroDepthTill++
+			if i+1 < len(ts) {
+				m.tillAfterZeroDepth++
+			}
+			continue
 		}
 		m.expTill = append(m.expTill, expEvent{sched: ts[i], due: due[i], till: te[i], desc: fmt.Sprintf("tillage %d cm type %d scheduled %s", te[i].Depth, te[i].Type, te[i].D)})
 	}
@@ -385,6 +395,8 @@ func (m *monC10) Finish(rc *RunCtx) {
 	}
 	rc.Cov("fertilisations_on_start_day", int64(m.startDayFert))
 	rc.Cov("same_day_pairs", int64(m.sameDayPairs))
+	rc.Cov("zero_depth_tillage_rows", int64(m.zeroDepthTill))
+	rc.Cov("tillage_rows_after_a_zero_depth_row", int64(m.tillAfterZeroDepth))
 	rc.Cov("pre_start_events_scheduled", int64(m.preStart))
 	rc.Cov(fmt.Sprintf("runs_date_format_%d", sc.DateFormat), 1)
 	if sc.OtherField {
@@ -395,7 +407,7 @@ func (m *monC10) Finish(rc *RunCtx) {
 
 func init() {
 	simProps["C10"] = simProp{checkSpec{Prop: "C10", Level: "exploration", NQuick: 2000, NThorough: 40000,
-		Rule:   "cases = generated projects with 0-14 fertilisations over every row of the fertiliser table, 0-10 tillages in fallow windows, 0-12 irrigations, same-day pairs, consecutive days, events before the start and after the end, events of other fields in the same files, all four date formats; the management event log of the real run is compared per kind with a reference reader of the generated schedule (exactly once, in order, on the due day) and the state jumps on the due day with the amounts from the fertiliser table; non-trivial = >30 days and at least one scheduled action",
-		Floors: []string{"fertilization_events_checked", "tillage_events_checked", "irrigation_events_checked", "sowing_events_checked", "harvest_events_checked", "fertiliser_amounts_checked", "irrigation_days_checked", "fertilisations_on_start_day", "same_day_pairs", "same_day_pair_followed_by_next_day_event", "pre_start_events_scheduled", "runs_date_format_0", "runs_date_format_1", "runs_date_format_2", "runs_date_format_3", "runs_with_second_field_in_files"}},
+		Rule:   "cases = generated projects with 0-14 fertilisations over every row of the fertiliser table, 0-10 tillages in fallow windows (working depth 0, 1-4 cm and 5 cm to the profile depth), 0-12 irrigations, same-day pairs, consecutive days, events before the start and after the end, events of other fields in the same files, all four date formats; the management event log of the real run is compared per kind with a reference reader of the generated schedule (exactly once, in order, on the due day) and the state jumps on the due day with the amounts from the fertiliser table; non-trivial = >30 days and at least one scheduled action",
+		Floors: []string{"fertilization_events_checked", "tillage_events_checked", "irrigation_events_checked", "sowing_events_checked", "harvest_events_checked", "fertiliser_amounts_checked", "irrigation_days_checked", "fertilisations_on_start_day", "same_day_pairs", "same_day_pair_followed_by_next_day_event", "pre_start_events_scheduled", "runs_date_format_0", "runs_date_format_1", "runs_date_format_2", "runs_date_format_3", "runs_with_second_field_in_files", "tillage_rows_after_a_zero_depth_row"}},
 		func() []Monitor { return []Monitor{&monC10{}} }}
 }
